@@ -4,7 +4,7 @@ from ..props_common import ASSUME_COMMON
 SPEC = {
     "level": "exploration",
     "technique": "runtime monitoring: real Image code under ASan/UBSan vs inline per-pixel shadow model, "
-                 "padded-canvas clipping invariance, draw_line geometric laws, identities",
+                 "padded-canvas clipping invariance, draw_line geometric laws, identities; small scopes exhaustively, long-thin / large canvas ladder for long runs and far offsets",
     "rule": "small scope: fill_rect complete cross product x,y in [-3,size+3] x w,h in [-1,size+3] on canvases {0,1,2,3,5,8}^2 "
             "(both alpha modes, 4 colours; widths 16/32/64 too in the thorough tier); blit family (blit, mask_blit, mask_blit_dst, "
             "mask_blit with mask image, blend_blit x2, custom_blit x2) over x,sx,y,sy in [-3,size+3], w,h in [-1,max+3] on canvases "
@@ -17,12 +17,23 @@ SPEC = {
             "per-pixel prediction of widen/narrow/alpha add/drop/mirror/invert) and read_pixel probes; format stage: every format x "
             "every target width on canvases {0,1,2,3,5}^2 (same width = canvas carrying its own MAXVAL != 2^w-1, created by loading a "
             "generated P6/P7 via fmemopen or by the raw-data constructor; also 1/4 of the sequences) followed by invert / alpha toggle / blend_blit / blit-from / mirror. "
+            "large stage: canvases W x H and H x W with W in {2^k-1, 2^k, 2^k+1, 3*2^(k-1)}, k = 12..18, H = 1..4 (224 geometries: quick runs each once "
+            "with one of the 8 formats, format and shard assignment rotate with the seed; thorough: all 8 formats, twice the requests) plus 'square' canvases "
+            "1500x1100, 1100x1500, 1024x700/64-bit (> 2^24 bytes), 2049x513, 513x2049 (thorough also 1450x1500/16a, 700x1024, 2100x2000/8a, 4097x257, 257x4097, 1201x1201); "
+            "on each: draw_line on an all-zero canvas judged by the exact-integer line laws (in-canvas: full length with every minor offset, major lengths 2^j-1/2^j/2^j+1/3*2^(j-1)+-1 "
+            "for every j that fits, random, near-diagonal on squares, both directions; partially outside: leaving through the far end after a long in-canvas run with end points "
+            "up to 2^31-1, leaving through the long side, entering from beyond the near end, both ends outside), then fill_rect / 8 blit kinds (small source, long source, self) / draw_text / "
+            "dashed lines (dash up to 65536) / mirrors / invert / resize_blit with coordinates at the far end, across the far edge and around every power of two inside the canvas "
+            "(per-pixel model on the whole buffer, 1/4 also padded-canvas invariance; half of the blits and a third of the fills are long runs of more than 3/4 of the canvas length), a width / alpha / copy change with the model carried along, read/write_pixel at far "
+            "coordinates and at coordinates that alias into the buffer when cut to 16 / 32 bits or when the row stride is ignored, identities on a rotating subset. "
             "distinct_nontrivial = distinct (operation, clip shape [dst-negative, src-negative, dst-overflow, src-overflow]) and "
             "(operation, channel width, alpha mode, self/other source) classes plus line/text/identity/pixel-access shape classes.",
     "level_text": "Every explored execution of the real drawing code is compared pixel-for-pixel against a shadow model that never "
                   "computes a clipped rectangle, and re-run on a padded canvas (model-free). Small geometric scopes are enumerated "
-                  "completely in the thorough tier; larger canvases and huge coordinates are sampled. A defect confined to canvases "
-                  "larger than 64x64, to coordinates beyond +-2^31, or to tuples not drawn by the quick-tier sample can be missed.",
+                  "completely in the thorough tier; larger canvases and huge coordinates are sampled. Long runs, far offsets, row strides and "
+                  "pixel indices up to 2^18 per side / 2^20 pixels / 2^24 bytes (2^22 pixels in the thorough tier) are covered by the large-canvas ladder. "
+                  "A defect confined to canvases with a side beyond 2^18+1 or more than ~4*10^6 pixels (pixel index >= 2^24), to near-diagonal lines longer than ~2000 steps, "
+                  "to coordinates beyond +-2^31, or to tuples not drawn by the quick-tier sample can be missed.",
     "stages": [
         {"name": "c07", "variant": "asan", "shards": (16, 16)},
     ],
@@ -44,6 +55,23 @@ SPEC = {
         "draw_text:len>=250:overload4", "draw_text:len>=250:layout0", "draw_text:len>=250:layout1", "draw_text:len>=250:layout2",
         "identity:widen:8->64", "identity:64a:*", "identity:8n:empty", "pixel:oob:read_pixel:*", "pixel:oob:write_pixel32:*",
         "pixel:in:write_pixel:64a", "mask_blit_img:mask-too-small",
+        # large-canvas ladder (round 5): a run that skipped a rung, a line family or a far-offset request class is inconclusive
+        "large:canvas:k12", "large:canvas:k13", "large:canvas:k14", "large:canvas:k15", "large:canvas:k16", "large:canvas:k17", "large:canvas:k18",
+        "large:canvas:wide", "large:canvas:tall", "large:canvas:square", "large:canvas:bytes>2^24", "large:canvas:pixels>2^20",
+        "large:canvas:fmt:8n", "large:canvas:fmt:8a", "large:canvas:fmt:16n", "large:canvas:fmt:16a", "large:canvas:fmt:32n", "large:canvas:fmt:32a",
+        "large:canvas:fmt:64n", "large:canvas:fmt:64a",
+        "large:line:incanvas-run>=2^15", "large:line:incanvas-run>=2^16", "large:line:incanvas-run>=2^17",
+        "large:line:incanvas:full-length:wide", "large:line:incanvas:full-length:tall", "large:line:incanvas:pow2-length:wide",
+        "large:line:incanvas:pow2-length:tall", "large:line:incanvas:random:wide", "large:line:incanvas:random:tall", "large:line:incanvas:near-diagonal:square",
+        "large:line:outside:far-end", "large:line:outside:long-side", "large:line:outside:near-end", "large:line:outside:both",
+        "large:offset>=2^15:blit-family", "large:offset>=2^16:blit-family", "large:offset>=2^17:blit-family",
+        "large:run>=2^16:blit-family", "large:run>=2^17:blit-family", "large:run>=2^16:fill_rect", "large:run>=2^17:fill_rect",
+        "large:offset>=2^16:fill_rect", "large:offset>=2^17:fill_rect", "large:offset>=2^1[567]:draw_text",
+        "large:op:blit", "large:op:mask_blit", "large:op:mask_blit_dst", "large:op:mask_blit_img", "large:op:blend_blit", "large:op:blend_blit_alpha",
+        "large:op:custom_blit32", "large:op:custom_blit64", "large:op:fill_rect", "large:op:draw_text", "large:op:draw_horizontal_line",
+        "large:op:draw_vertical_line", "large:op:reverse_horizontal", "large:op:reverse_vertical", "large:op:invert",
+        "large:pixel:inside:wide", "large:pixel:inside:tall", "large:pixel:inside:square", "large:pixel:outside:wide", "large:pixel:outside:tall",
+        "large:identity:wide", "large:identity:tall", "large:identity:square",
     ],
     "exhaustive": {"quick": False, "thorough": False},
     "exhaustive_note": "complete: fill_rect cross product on the {0,1,2,3,5,8}^2 grid (8-bit in quick, all widths in thorough); "
